@@ -112,6 +112,8 @@ type Engine struct {
 
 	step             int
 	expEvents        []MEv
+	prelude          []COp // the first single creations of the run
+	replayQ          []COp // ... to be repeated after a reset
 	expLockedAt      bool
 	touched          map[ecs.Entity]bool
 	replica          map[ecs.Entity]*MEnt
@@ -653,7 +655,15 @@ func (e *Engine) doStep(st *Step) *Violation {
 			}
 		}
 	}
+	if len(e.replayQ) > 0 && !e.locked() && structuralName[opName] && opName != "reset" && !e.full() {
+		opName = "setup-again"
+	}
 	switch opName {
+	case "setup-again":
+		op := e.replayQ[0]
+		e.replayQ = e.replayQ[1:]
+		e.St.Probes["setup-call-repeated-after-reset"]++
+		v = e.runNew(&op)
 	case "new":
 		v = e.opNew(c)
 	case "newbatch":
